@@ -95,6 +95,18 @@ CLAIMED["C09"] = dict(
     note="Trusted: CrossHair, z3, ref/commands.json, reference encoder, frozen AVP dictionary. Bound: windows of <=3 (quick) / 5 "
          "arguments per query (quick: one rotating window per class), leaf lengths 1..4, Grouped depth 3.")
 
+CLAIMED["C11"] = dict(
+    level="model_checking", technique=E1 + " (operation choices are solver integers; the solver prunes nothing in that dimension)",
+    design="6/C11",
+    text="Every operation sequence over a 30-entry (operation, operand) alphabet - append, pop, cleanup, list replacement, "
+         "extend, item assignment, key renaming, bulk update, refresh over a 12-object AVP alphabet with equal-valued, same-name, "
+         "unknown and Grouped AVPs of every length residue - is executed on the real DiameterMessage from 8 start states that "
+         "take 0-5 steps to reach; after every operation the named view, the AVP list and the Message Length are compared with "
+         "a list-based reference container. The sequence is a vector of solver integers explored exhaustively by CrossHair.",
+    note="Trusted: CrossHair path enumeration, the reference container/coherence predicate. Bounds: n<=2 full alphabet and n=3 "
+         "reduced alphabet per start state (quick); n=3 full, n=4-5 reduced (thorough). Outside: same object appended twice, "
+         "GroupedType's container, renaming to a key without '_avp'.")
+
 PENDING_REASON = "check not built yet in this session (planned in DESIGN.md section 6); no claim is made"
 NOT_APPLICABLE = {}
 
